@@ -22,7 +22,7 @@ from . import probes
 HTML5LIB_DIR = os.path.join(env.REPO, "html5lib") + os.sep
 import xml as _xml  # noqa: E402
 XML_DIR = os.path.dirname(os.path.abspath(_xml.__file__)) + os.sep
-MAX_STEPS = 1200000
+MAX_STEPS = 3000000
 WORKER_WALL_S = 120
 DEBUG_TRACE = None   # set to a list to record every traced step (debugging of the scheduler itself)
 
@@ -224,8 +224,9 @@ class _Worker(object):
 
 
 class Baton(object):
-    def __init__(self, fns, rng=None, quanta=None, p_hot=0.5, p_warm=0.02, p_cold=0.005, opcodes=True):
-        self.opcodes = opcodes
+    def __init__(self, fns, rng=None, quanta=None, p_hot=0.5, p_warm=0.02, p_cold=0.005, opcodes=True, opcodes_all=False):
+        self.opcodes = opcodes or opcodes_all
+        self.opcodes_all = opcodes_all      # per-bytecode pre-emption in EVERY html5lib frame, not only in hot ones
         self.workers = [_Worker(i, fn) for i, fn in enumerate(fns)]
         self.sched_sem = threading.Semaphore(0)
         self.rng = rng
@@ -250,12 +251,13 @@ class Baton(object):
         def make_local(hot):
             p = baton.p_hot if hot else baton.p_cold
             p_op = p / 4.0
+            count_ops = hot or baton.opcodes_all
 
             def local(frame, event, arg):
                 if DEBUG_TRACE is not None and event in ("line", "opcode"):
                     DEBUG_TRACE.append((w.tid, frame.f_code.co_name, frame.f_lineno, event, hot))
                 if event != "line":
-                    if event != "opcode" or not baton.opcodes:
+                    if event != "opcode" or not baton.opcodes or not count_ops:
                         # (a code object instrumented for per-bytecode events by an earlier run keeps delivering them)
                         return local
                     # hot frames are traced per bytecode: a window between two
@@ -316,6 +318,8 @@ class Baton(object):
                     if baton.opcodes:
                         frame.f_trace_opcodes = True
                     return local_hot
+                if baton.opcodes_all:
+                    frame.f_trace_opcodes = True
                 return local_cold
             return None
         return tracer
@@ -501,7 +505,10 @@ def gen_case(rng):
             "sched_seed": rng.getrandbits(48), "p_hot": rng.choice([0.5, 0.5, 0.2, 0.05]),
             "p_cold": rng.choice([0.005, 0.001, 0.02]),
             # half of the runs trace hot frames per bytecode (pre-emption inside a source line)
-            "opcodes": rng.random() < 0.5}
+            "opcodes": rng.random() < 0.5,
+            # ... and some trace EVERY html5lib frame per bytecode: a window inside one line of code that nothing marks as
+            # touching shared state
+            "opcodes_all": rng.random() < 0.08}
 
 
 def _api_tb(builder):
@@ -558,7 +565,7 @@ def run_api_op(op, private=None):
     raise ValueError(kind)
 
 
-def _prime_opcode_events(fns):
+def _prime_opcode_events(fns, every_frame=False):
     prefix = HTML5LIB_DIR
 
     def local(frame, event, arg):
@@ -567,7 +574,7 @@ def _prime_opcode_events(fns):
     def tracer(frame, event, arg):
         if frame.f_code.co_filename.startswith(prefix):
             try:
-                if frame_is_hot(frame):
+                if every_frame or frame_is_hot(frame):
                     frame.f_trace_opcodes = True
             except Exception:
                 pass
@@ -670,19 +677,20 @@ def execute(case):
         return fn
     fns = [make_fn(t) for t in case["threads"]]
     opcodes = bool(case.get("opcodes", False))
-    if opcodes:
+    opcodes_all = bool(case.get("opcodes_all", False))
+    if opcodes or opcodes_all:
         # CPython instruments a code object for per-bytecode events the first time a frame of it asks for them, and the
         # frame that asks may miss its own first events: run the operations once, alone, asking for them, so that in the
         # real run every hot frame delivers them from its first instruction - in this process and in a fresh one alike
-        _prime_opcode_events(fns)
+        _prime_opcode_events(fns, opcodes_all)
         c12.cold_restart()
         if not case["cold"]:
             warm_up()
     if case.get("quanta") is not None:
-        b = Baton(fns, quanta=[tuple(q) for q in case["quanta"]], opcodes=opcodes)
+        b = Baton(fns, quanta=[tuple(q) for q in case["quanta"]], opcodes=opcodes, opcodes_all=opcodes_all)
     else:
         b = Baton(fns, rng=random.Random(case["sched_seed"]), p_hot=case.get("p_hot", 0.5), p_cold=case.get("p_cold", 0.005),
-                  opcodes=opcodes)
+                  opcodes=opcodes, opcodes_all=opcodes_all)
     results, errors = b.run()
     res["quanta"] = [list(q) for q in b.taken]
     res["_case"] = case
